@@ -1,4 +1,6 @@
 """C17 - R-MAX stays optimistic about what it has not tried often enough."""
+import numpy as np
+
 from sim.core import Violation, Inconclusive, InjectedAbort, RandomProxy, patched_random, close
 from sim.models import nested_variant_spec, gen_mdp_spec, MDPView, make_mdp, sibling_mdp_spec, rotated_probability_spec, update_model_in_place
 from sim.refsolve import game_W
@@ -125,7 +127,7 @@ def _execute(rm, view, cfg, ctx, sched):
                               key='optimistic-unknown' + ('/m-1' if c == m - 1 else ''))
                 else:
                     tgt = Rsum[s, a] / m + g * sum(k / m * max(Qr[t_].values()) for t_, k in Tc[s, a].items())
-                    ctx.check(abs(v - tgt) < tol + 1e-12, 'bellman-empirical',
+                    ctx.check(abs(v - tgt) < tol + 1e-12 + 4 * float(np.spacing(max(abs(v), abs(tgt)))), 'bellman-empirical',      # (the tolerance cannot be finer than the floats it is measured in)
                               lambda: f"{where}: pair ({s},{a}) known (first {m} samples: R={Rsum[s, a] / m!r}, T={Tc[s, a]}) but |Q - backup| = {abs(v - tgt)!r} >= {tol}")
         if policy is not None:
             for s in Qr:
